@@ -16,6 +16,7 @@ func genProgram(t *rapid.T, nkeys, maxOps int) []COp {
 	for i := 0; i < n; i++ {
 		op := COp{K: rapid.SampledFrom(kinds).Draw(t, "kind"), Key: rapid.IntRange(0, nkeys-1).Draw(t, "key")}
 		op.Yield = rapid.IntRange(0, 2).Draw(t, "yield")
+		op.Same = rapid.IntRange(0, 3).Draw(t, "sameValue") == 0
 		switch op.K {
 		case "cas":
 			op.Ver = rapid.SampledFrom([]int{0, 0, 0, 1, 2}).Draw(t, "ver")
